@@ -423,6 +423,9 @@ func (txn MapTxn[K, V]) Commit() (m Map[K, V]) {
 	default:
 		m.tree = txn.txn.Commit()
 		m.hasTree = true
+		// Commit() offers the transaction for reuse by the next Tree.Txn(), but
+		// this MapTxn remains usable and keeps owning it: take it back.
+		m.tree.prevTxn.CompareAndSwap(txn.txn, nil)
 	}
 	if m.singleton != nil {
 		m.hasTree = false
